@@ -60,7 +60,7 @@ func Judge(stmts []*N) *Verdict {
 	// every generated program terminates within the model's step budget (tiny programs): a run
 	// that is still going after 5 s is repeated alone with 30 s before it is called a hang. Once a
 	// hang has been reported in this process, later runs get 2 s and are excluded when they exceed it
-	host := NewHost()
+	host := NewHostFor(v.Src)
 	first := 5 * time.Second
 	if hangReported {
 		first = 2 * time.Second
@@ -71,7 +71,7 @@ func Judge(stmts []*N) *Verdict {
 		return v
 	}
 	if timedOut {
-		host = NewHost()
+		host = NewHostFor(v.Src)
 		val, err, timedOut = host.ExecTimeout(v.Src, 30*time.Second)
 		if timedOut {
 			hangReported = true
@@ -120,6 +120,9 @@ func Judge(stmts []*N) *Verdict {
 		return v
 	}
 	v.Clause, v.Detail = firstClause, firstDetail
+	if host.Nested {
+		v.Detail += "\n(environment: the program ran in a child, with an external lookup that knows no name, of the environment holding the host functions)"
+	}
 	return v
 }
 
